@@ -343,8 +343,12 @@ def tie_hals_row(tree):
             goals.append(f"Goal forall (UtM UtU V : mat) (n k j : nat) (sp rd eps meps : R) (nz : bool), (j < n)%nat ->\n"
                          f"  nth j (hals_newrow Rops UtM UtU n {o} V k) 0 = {val('k', 'j')}.\n"
                          "Proof.\n  intros. unfold hals_newrow. rewrite nth_map_seq by assumption. cbn [h_sp h_ridge h_eps]. unfold two.\n"
-                         "  cbn [f0 f1 fadd fsub fmul fdiv Rops]. apply (f_equal (fmax Rops eps)).\n"
-                         "  match goal with |- ?a / ?b = ?c / ?d => replace c with a by ring; replace d with b by ring; reflexivity end.\nQed.\n")
+                         "  cbn [f0 f1 fadd fsub fmul fdiv Rops].\n"
+                         # round 8: the row update may be written clip(q, a_min=eps) (= fmax eps q) or where(q < eps, eps, q): both are decided
+                         "  first [ apply (f_equal (fmax Rops eps)); match goal with |- ?a / ?b = ?c / ?d => replace c with a by ring; replace d with b by ring; reflexivity end\n"
+                         "        | match goal with |- fmax Rops eps (?a / ?b) = (if _ (?c / ?d) eps then eps else _) => replace c with a by ring; replace d with b by ring end;\n"
+                         "          unfold fmax; cbn [fleb Rops]; unfold Rleb;\n"
+                         "          repeat match goal with |- context [Rlt_dec ?u ?v] => destruct (Rlt_dec u v) | |- context [Rle_dec ?u ?v] => destruct (Rle_dec u v) end; lra ].\nQed.\n")
     return "\n".join(goals)
 
 
@@ -512,7 +516,16 @@ def tie_fista_loop(tree):
     c = Mat({"norm": ("S", "nrm"), "norm_0": ("S", "norm0'"), "tol": ("S", "tol")}, None).expr(cond)
     if c[0] != "B":
         raise Untranslatable("stopping test is not a comparison")
-    return ("Goal forall (UtM UtU x xu : mat) (r n : nat) (nonneg : bool) (sp rd lr tol eps mo m : R) (rest : list R) (first : bool) (norm0 : R),\n"
+    # round 8: sum(abs(x - x_new)) and sum(abs(x_new - x)) are the same norm (auxiliary lemma stated and proved inside the generated file)
+    return ("Lemma tie_abs_swap r n (a b : mat) : wfm r n a -> wfm r n b ->\n"
+            "  msum Rops (mmap (fabs Rops) (mmap2 (fsub Rops) a b)) = msum Rops (mmap (fabs Rops) (mmap2 (fsub Rops) b a)).\n"
+            "Proof.\n"
+            "  intros Wa Wb. f_equal. apply (wfm_ext r n); [apply wfm_mmap, wfm_mmap2; assumption | apply wfm_mmap, wfm_mmap2; assumption|].\n"
+            "  intros i j Hi Hj. rewrite !(mget_mmap r n) by (try apply wfm_mmap2; assumption). rewrite !(mget_mmap2 r n) by assumption.\n"
+            "  unfold fabs. cbn [fleb f0 fsub fopp Rops]. unfold Rleb.\n"
+            "  repeat match goal with |- context [Rle_dec ?u ?v] => destruct (Rle_dec u v) end; lra.\n"
+            "Qed.\n"
+            "Goal forall (UtM UtU x xu : mat) (r n : nat) (nonneg : bool) (sp rd lr tol eps mo m : R) (rest : list R) (first : bool) (norm0 : R),\n"
             "  wfm r r UtU -> wfm r n UtM -> wfm r n x -> wfm r n xu ->\n"
             "  let xn := fista_new Rops UtM UtU n nonneg sp rd lr eps xu in\n"
             f"  let nrm := {nrm[1]} in\n"
@@ -521,7 +534,8 @@ def tie_fista_loop(tree):
             "    fista_loop Rops UtM UtU n nonneg sp rd lr tol eps (((mo - 1) / m) :: rest) first norm0 x xu =\n"
             f"      (if {c[1]} then xn else fista_loop Rops UtM UtU n nonneg sp rd lr tol eps rest false norm0' xn xu') /\\\n"
             f"    forall i j, (i < r)%nat -> (j < n)%nat -> Mget xu' i j = {upd}.\n"
-            "Proof.\n  intros. eexists. split; [cbn [fista_loop]; cbv zeta; reflexivity|].\n"
+            "Proof.\n  intros. assert (Wn0 : wfm r n xn) by (apply (fista_new_wfm UtM UtU r n sp rd lr eps); assumption).\n"
+            "  eexists. split; [cbn [fista_loop]; cbv zeta; first [reflexivity | unfold norm0', nrm; rewrite (tie_abs_swap r n xn x) by assumption; reflexivity]|].\n"
             "  intros i j Hi Hj. assert (Wn : wfm r n xn) by (apply (fista_new_wfm UtM UtU r n sp rd lr eps); assumption).\n"
             "  assert (Wd : wfm r n (mmap2 (fsub Rops) xn x)) by (apply wfm_mmap2; assumption).\n"
             "  fold xn. rewrite (mget_mmap2 r n) by assumption. rewrite (mget_mmap2 r n) by assumption. cbn [fadd fsub fmul Rops]. ring.\nQed.\n")
